@@ -31,6 +31,17 @@ pub struct ContextHandle {
     pub(crate) sub_id: Arc<AtomicU32>,
 }
 
+/// Allocates the next packet identifier. Zero is not a valid identifier, so it is skipped
+/// when the counter wraps around.
+fn next_packet_id(counter: &AtomicU16) -> u16 {
+    loop {
+        let id = counter.fetch_add(1, Ordering::Relaxed);
+        if id != 0 {
+            return id;
+        }
+    }
+}
+
 impl ContextHandle {
     /// Performs graceful disconnection with the broker by sending the
     /// [Disconnect](https://docs.oasis-open.org/mqtt/mqtt/v5.0/os/mqtt-v5.0-os.html#_Toc3901205) packet.
@@ -109,7 +120,7 @@ impl ContextHandle {
             }
             QoS::AtLeastOnce => {
                 let packet = opts
-                    .packet_identifier(self.packet_id.fetch_add(1, Ordering::Relaxed))
+                    .packet_identifier(next_packet_id(&self.packet_id))
                     .build()?;
 
                 let mut buf = BytesMut::with_capacity(packet.packet_len());
@@ -141,7 +152,7 @@ impl ContextHandle {
             }
             QoS::ExactlyOnce => {
                 let packet = opts
-                    .packet_identifier(self.packet_id.fetch_add(1, Ordering::Relaxed))
+                    .packet_identifier(next_packet_id(&self.packet_id))
                     .build()?;
 
                 let mut buf = BytesMut::with_capacity(packet.packet_len());
@@ -226,7 +237,7 @@ impl ContextHandle {
         let (str_sender, str_receiver) = mpsc::unbounded();
 
         let packet = opts
-            .packet_identifier(self.packet_id.fetch_add(1, Ordering::Relaxed))
+            .packet_identifier(next_packet_id(&self.packet_id))
             .subscription_identifier(self.sub_id.fetch_add(1, Ordering::Relaxed))
             .build()?;
 
@@ -269,7 +280,7 @@ impl ContextHandle {
         let (sender, receiver) = oneshot::channel();
 
         let packet = opts
-            .packet_identifier(self.packet_id.fetch_add(1, Ordering::Relaxed))
+            .packet_identifier(next_packet_id(&self.packet_id))
             .build()?;
 
         let mut buf = BytesMut::with_capacity(packet.packet_len());
@@ -303,7 +314,7 @@ impl ContextHandle {
             .await?;
         let stream = subscription.stream();
 
-        let trace = self.packet_id.fetch_add(1, Ordering::Relaxed).to_be_bytes();
+        let trace = next_packet_id(&self.packet_id).to_be_bytes();
         self.publish(
             PublishOpts::new()
                 .correlation_data(&trace)
